@@ -12,7 +12,7 @@
    pending events in the order the event set (CQueue.Spec, C01) returns them. *)
 From Coq Require Import List NArith Permutation.
 From DesVerif Require Import CQueue.Model CQueue.Spec Channel.Model Channel.Queue Channel.Trace Channel.Core
-  Channel.Account Channel.Timing Channel.Props Channel.Term Channel.Order Channel.Multi Channel.Project Channel.Links.
+  Channel.Account Channel.Timing Channel.Props Channel.Term Channel.Order Channel.Multi Channel.Project Channel.Links Channel.MTerm.
 Import ListNotations.
 Open Scope N_scope.
 
@@ -143,44 +143,62 @@ Print Assumptions C07_queue_limit.
    several channels; [plog c] is channel c's part of the shared log, [pbursts mbursts c] channel
    c's part of the script, [own_run ... c k] the single-channel run on that part. ---- *)
 
-(* links_independent: channel c of a multi-channel run -- its record, its remaining jitter samples,
-   its part of the log -- is a state of the single-channel run on c's own part of the script.  That run
-   mentions no other channel: what is offered to other channels, and their states, have no influence. *)
-Theorem C07_links_independent : forall tx mt mbursts template oracles c n,
+(* links_independent: channel c of a multi-channel run -- its instance, its remaining jitter samples,
+   its part of the log -- is a state of the single-channel run with c's own metrics [mts c], [txs c] on
+   c's own part of the script.  That run mentions no other channel: what is offered to other channels,
+   their metrics and their states have no influence. *)
+Theorem C07_links_independent : forall txs mts mbursts oracles c n,
   c < NCH ->
-  exists k, chs (mreach tx mt mbursts template oracles n) c = ch (own_run tx mt mbursts oracles c k) /\
-            orcs (mreach tx mt mbursts template oracles n) c = orc (own_run tx mt mbursts oracles c k) /\
-            plog c (mlog (mreach tx mt mbursts template oracles n)) = log (own_run tx mt mbursts oracles c k).
+  exists k, inst_of (mreach txs mts mbursts oracles n) c = ch (own_run txs mts mbursts oracles c k) /\
+            orcs (mreach txs mts mbursts oracles n) c = orc (own_run txs mts mbursts oracles c k) /\
+            plog c (mlog (mreach txs mts mbursts oracles n)) = log (own_run txs mts mbursts oracles c k).
 Proof. exact links_independent. Qed.
 Print Assumptions C07_links_independent.
 
 (* hence every invariant of the single-channel model holds of every channel of a multi-channel run *)
-Theorem C07_multi_transfer : forall tx mt mbursts template oracles (P : chan -> list item -> Prop) c n,
+Theorem C07_multi_transfer : forall txs mts mbursts oracles (P : chan -> list item -> Prop) c n,
   c < NCH ->
-  (forall k, P (ch (own_run tx mt mbursts oracles c k)) (log (own_run tx mt mbursts oracles c k))) ->
-  P (chs (mreach tx mt mbursts template oracles n) c) (plog c (mlog (mreach tx mt mbursts template oracles n))).
+  (forall k, P (ch (own_run txs mts mbursts oracles c k)) (log (own_run txs mts mbursts oracles c k))) ->
+  P (inst_of (mreach txs mts mbursts oracles n) c) (plog c (mlog (mreach txs mts mbursts oracles n))).
 Proof. exact multi_transfer. Qed.
 Print Assumptions C07_multi_transfer.
 
-(* for instance: busy span, FIFO start, queue limit, no message stuck -- per channel *)
-Theorem C07_multi_channel_wf : forall tx mt mbursts template oracles c n,
+(* for instance: busy span, FIFO start, queue limit, no message stuck -- per channel, with its own metrics *)
+Theorem C07_multi_channel_wf : forall txs mts mbursts oracles c n,
   c < NCH ->
-  let l := plog c (mlog (mreach tx mt mbursts template oracles n)) in
-  let r := chs (mreach tx mt mbursts template oracles n) c in
-  wf_log tx mt l /\ cur_of tx l = (if busy r then Some (finish r) else None) /\ queue_of l = buffer r /\
+  let l := plog c (mlog (mreach txs mts mbursts oracles n)) in
+  let r := inst_of (mreach txs mts mbursts oracles n) c in
+  wf_log (txs c) (mts c) l /\ cur_of (txs c) l = (if busy r then Some (finish r) else None) /\ queue_of l = buffer r /\
   acc r = qsum (buffer r) /\ (busy r = false -> buffer r = []).
 Proof. exact multi_channel_wf. Qed.
 Print Assumptions C07_multi_channel_wf.
 
 (* a new instance (Channel::dup) starts idle with an empty queue whatever state its template is in --
-   also when the template is the live channel of a link that is transmitting at that moment *)
+   also when the template is the live channel of a link that is transmitting at that moment; in the
+   model an instance comes into being when a handler first uses it, by dup from the live template *)
 Theorem C07_new_instance_starts_idle : forall template, dup template = idle_chan.
 Proof. exact dup_fresh. Qed.
 Print Assumptions C07_new_instance_starts_idle.
 
-Theorem C07_template_state_irrelevant : forall bs t1 t2 oracles, minit bs t1 oracles = minit bs t2 oracles.
-Proof. exact minit_template_irrelevant. Qed.
-Print Assumptions C07_template_state_irrelevant.
+Theorem C07_created_idle : forall s c, chs s c = None -> inst_of s c = idle_chan.
+Proof. exact created_idle. Qed.
+Print Assumptions C07_created_idle.
+
+(* multi_run_completes: the run of every script (offers (time, channel, length), grouped into bursts per
+   sending module) ends within the fuel of Multi.run with no event pending, whatever the per-channel
+   metrics, transmission times and oracles -- every step of the shared loop is a step of at least one
+   channel's own run, so the sum of the single-channel termination measures decreases.  The samples of
+   at_sim_end leave the event set alone: the marker 9 of the model's output is never printed. *)
+Theorem C07_multi_run_completes : forall txs mts oracles offs,
+  let bs := sched_order (mgroup offs 0) in
+  let s := msteps own_instance txs mts bs (mfuel offs) (minit bs oracles) in
+  mstep own_instance txs mts bs s = None /\ pend (mq s) = [] /\
+  forall cs, s_zero (mq (fold_left (fun s c => on c sample s) cs s)) ++ s_rest (mq (fold_left (fun s c => on c sample s) cs s)) = [].
+Proof.
+  intros txs mts oracles offs. cbv zeta. destruct (multi_run_completes txs mts oracles offs) as [H1 H2].
+  refine (conj H1 (conj H2 _)). intros cs. rewrite final_samples_keep_queue. exact H2.
+Qed.
+Print Assumptions C07_multi_run_completes.
 
 (* ---- non-vacuity: a script that queues, drains two zero-time messages in one Unbusy, drops on a
    full queue and delivers in order (2 Tbit/s: 64 B -> 0 ns, 1088 B -> 4 ns; latency 0) ---- *)
@@ -204,8 +222,8 @@ Proof. vm_compute. intuition. Qed.
 Definition ex_mb : list (N * list (N * N * N)) :=
   [(0, [(0, 0, 64)]); (10000000, [(1, 1, 64); (3, 2, 64)])].
 Definition ex_mfinal : mst :=
-  msteps own_instance (fun _ => 64000000) {| m_lat := 100000000; m_jit := 0; m_pol := PDrop |} ex_mb 20
-    (minit ex_mb (fun _ => idle_chan) (fun _ => [])).
+  msteps own_instance (fun _ _ => 64000000) (fun _ => {| m_lat := 100000000; m_jit := 0; m_pol := PDrop |}) ex_mb 20
+    (minit ex_mb (fun _ => [])).
 
 Example C07_example_links :
   rev (delivered (plog 0 (mlog ex_mfinal))) = [0] /\ rev (delivered (plog 1 (mlog ex_mfinal))) = [1] /\
